@@ -11,6 +11,16 @@
 //!   (cw-multi-test's own bank accepts any recipient string, a real chain does not);
 //! * a legacy stub (same code, but `instantiate` writes a pre-0.12 / pre-0.13.1 storage layout)
 //!   for the migration paths.
+//!
+//! Wire format (tie of lean/CwPlus/CwPlus/Base/Json.lean): `ibc recv … data=<hex>` delivers exactly those bytes
+//! as `IbcPacket.data` (the printed fields `amt= denom= snd=` are then only a comment, `rcv=` still carries the
+//! result of `addr_validate` on the receiver and `tv=` that on the cw20 address of the denomination); the generator
+//! mostly sends the canonical JSON of the printed fields and, for more than 15 % of the packets, mutated JSON
+//! (`mutate_packet_json`).  `ibc ack … ackdata=<hex>` delivers exactly those bytes as the acknowledgement.  Outcome
+//! lines carry `pkt=<hex>[;<hex>]` (the data of every `IbcMsg::SendPacket`) and `ackraw=<hex>` (the acknowledgement
+//! bytes the transaction produced: `IbcReceiveResponse.acknowledgement` or the `reply`'s data override).  Free text
+//! (`to=`, `memo=`, receiver / memo inside `sent=`, `rcv=` / `memo=` of ack and timeout lines) is percent-encoded
+//! (`text_enc`).  Old lines (`raw=1`, no `data=`) keep working.
 // SCENARIO ics20 crate::scen_ics20::Ics20Scen::new()
 // SCENARIO ics20wide crate::scen_ics20::Ics20Scen::new_wide()
 //
@@ -398,6 +408,331 @@ struct Flight {
     memo: Option<String>,
 }
 
+/// texts that need (or look like they need) escaping on the wire or on an op line
+const WIRE_TEXTS: [&str; 20] = [
+    "a\"b",
+    "back\\slash",
+    "line\nbreak",
+    "tab\there",
+    "\u{1}ctl\u{1f}",
+    "\u{7f}del",
+    "caf\u{e9}",
+    "\u{65e5}\u{672c}",
+    "\u{1f600}",
+    "",
+    "a/b",
+    "sp ace",
+    "-",
+    "empty",
+    "\u{8}\u{c}\r",
+    "%41",
+    "\\u0041",
+    "{\"k\":[1,2]}",
+    "\u{0}nul",
+    "x=y,z;w|v~",
+];
+
+/// serde's own rendering of a JSON string
+fn json_str(s: &str) -> String {
+    String::from_utf8(to_json_binary(&s).unwrap().to_vec()).unwrap()
+}
+
+/// every character as a `\uXXXX` escape (surrogate pairs above the BMP): another spelling of the same string
+fn json_str_all_escaped(s: &str) -> String {
+    let mut out = String::from("\"");
+    for u in s.encode_utf16() {
+        out.push_str(&format!("\\u{:04x}", u));
+    }
+    out.push('"');
+    out
+}
+
+fn render_obj(fields: &[(String, String)]) -> Vec<u8> {
+    let body: Vec<String> = fields.iter().map(|(k, v)| format!("{}:{}", json_str(k), v)).collect();
+    format!("{{{}}}", body.join(",")).into_bytes()
+}
+
+/// A mutated JSON encoding of the packet `(amt, denom, rcv, snd, memo)`.  Mutations that keep the document
+/// acceptable keep the values of amount / denom / receiver (the op line's `amt= rcv= tv=` stay true); whether a
+/// document is acceptable is for the code under test to say.
+fn mutate_packet_json(rng: &mut Rng, amt: u128, denom: &str, rcv: &str, snd: &str, memo: Option<&str>) -> Vec<u8> {
+    let mut f: Vec<(String, String)> = vec![
+        ("amount".to_string(), json_str(&amt.to_string())),
+        ("denom".to_string(), json_str(denom)),
+        ("receiver".to_string(), json_str(rcv)),
+        ("sender".to_string(), json_str(snd)),
+    ];
+    if let Some(m) = memo {
+        f.push(("memo".to_string(), json_str(m)));
+    }
+    let n = f.len();
+    let pos = rng.below(n as u64 + 1) as usize;
+    let scalars = ["123", "true", "false", "null", "-1.5e3", "tru", "12abc", "\"str\"", "0", "nul l", "\"\"", "+", "1 2", "\u{e9}"];
+    match rng.below(34) {
+        // field order permuted
+        0 | 1 => {
+            let k = 1 + rng.below(n as u64 - 1) as usize;
+            f.rotate_left(k);
+            if rng.chance(1, 2) {
+                f.swap(0, n - 1);
+            }
+            render_obj(&f)
+        }
+        // unknown extra field: scalar / nested object / array
+        2 | 3 => {
+            f.insert(pos, (format!("extra{}", rng.below(3)), rng.pick(&scalars).to_string()));
+            render_obj(&f)
+        }
+        4 => {
+            f.insert(pos, ("x".to_string(), "{\"a\":[1,2,{\"b\":null}],\"c\":\"d\",\"amount\":\"9\"}".to_string()));
+            render_obj(&f)
+        }
+        5 => {
+            let arr = *rng.pick(&["[1,\"two\",[3],{}]", "[]", "[,1]", "[1,]", "[1 2]", "[,\"a\" \"b\"]", "[[[[]]]]", "[\"a\\\"]\"]", "[1,,2]", "{\"a\":1,}", "{,}", "{\"a\" 1}", "{1:2}"]);
+            f.insert(pos, ("x".to_string(), arr.to_string()));
+            render_obj(&f)
+        }
+        // duplicate field
+        6 | 7 => {
+            let i = rng.below(n as u64) as usize;
+            let mut d = f[i].clone();
+            if rng.chance(1, 2) {
+                d.1 = json_str("other");
+            }
+            f.insert(pos, d);
+            render_obj(&f)
+        }
+        // missing field
+        8 | 9 => {
+            f.remove(rng.below(n as u64) as usize);
+            render_obj(&f)
+        }
+        // memo: null
+        10 => {
+            f.retain(|(k, _)| k != "memo");
+            f.insert(pos.min(f.len()), ("memo".to_string(), "null".to_string()));
+            render_obj(&f)
+        }
+        // wrong types
+        11 | 12 => {
+            let i = rng.below(n as u64) as usize;
+            f[i].1 = rng.pick(&["5", "null", "[\"a\"]", "{\"a\":1}", "true", "nul", "\"unterminated"]).to_string();
+            render_obj(&f)
+        }
+        // numeric amount instead of a string
+        13 => {
+            f[0].1 = amt.to_string();
+            render_obj(&f)
+        }
+        // amount spellings
+        14 | 15 | 16 => {
+            let a = amt.to_string();
+            let v = match rng.below(16) {
+                0 => format!("+{a}"),
+                1 => format!("00{a}"),
+                2 => format!("-{a}"),
+                3 => String::new(),
+                4 => format!(" {a}"),
+                5 => format!("{a} "),
+                6 => "340282366920938463463374607431768211455".to_string(),
+                7 => "340282366920938463463374607431768211456".to_string(),
+                8 => "18446744073709551616".to_string(),
+                9 => format!("{a}e0"),
+                10 => format!("0x{a}"),
+                11 => "\u{661}\u{662}".to_string(),
+                12 => "+".to_string(),
+                13 => format!("++{a}"),
+                14 => format!("+000000000000000000000000000000000000000000000000{a}"),
+                _ => format!("{a}.0"),
+            };
+            f[0].1 = json_str(&v);
+            // the digits as escapes: the same string
+            if rng.chance(1, 4) {
+                f[0].1 = json_str_all_escaped(&v);
+            }
+            render_obj(&f)
+        }
+        // truncated text
+        17 | 18 => {
+            let b = render_obj(&f);
+            let cut = rng.below(b.len() as u64) as usize;
+            b[..cut].to_vec()
+        }
+        // trailing garbage / trailing whitespace
+        19 | 20 => {
+            let mut b = render_obj(&f);
+            b.extend_from_slice(rng.pick(&["x", "}", " {}", ",", " \n\t\r ", "\u{0}", "null", "\u{a0}"]).as_bytes());
+            b
+        }
+        // whitespace between all tokens
+        21 | 22 => {
+            let ws = |rng: &mut Rng| rng.pick(&["", " ", "\n", "\t", "\r", " \r\n\t ", "\u{b}", "\u{c}", "\u{a0}"]).to_string();
+            let exotic = rng.chance(1, 6);
+            let w = |rng: &mut Rng| {
+                let mut x = ws(rng);
+                while !exotic && (x == "\u{b}" || x == "\u{c}" || x == "\u{a0}") {
+                    x = ws(rng);
+                }
+                x
+            };
+            let mut out = w(rng);
+            out.push('{');
+            for (i, (k, v)) in f.iter().enumerate() {
+                if i > 0 {
+                    out.push_str(&w(rng));
+                    out.push(',');
+                }
+                out.push_str(&w(rng));
+                out.push_str(&json_str(k));
+                out.push_str(&w(rng));
+                out.push(':');
+                out.push_str(&w(rng));
+                out.push_str(v);
+            }
+            out.push_str(&w(rng));
+            out.push('}');
+            out.push_str(&w(rng));
+            out.into_bytes()
+        }
+        // escape sequences (other spellings of the same strings, and broken ones)
+        23 | 24 | 25 => {
+            match rng.below(12) {
+                0 => f[2].1 = json_str_all_escaped(rcv),
+                1 => f[1].1 = json_str_all_escaped(denom),
+                2 => f[3].1 = "\"re\\\"mo\\\\te\\n\\u0041\\/\\b\\f\\r\\t\"".to_string(),
+                3 => f[3].1 = "\"\\ud83d\\ude00\"".to_string(),
+                4 => f[3].1 = "\"\\ud83d\"".to_string(),
+                5 => f[3].1 = "\"\\ude00\\ud83d\"".to_string(),
+                6 => f[3].1 = rng.pick(&["\"\\x41\"", "\"\\u12\"", "\"\\u123g\"", "\"\\\"", "\"\\ud800\\u0041\\udc00\"", "\"\\ud800\\u0041\"", "\"\\ud800\\n\\udc00\"", "\"\\ud800\\ud800\"", "\"\\uD83D\\uDE00\\u00e9\\u20AC\""]).to_string(),
+                // a raw control character: accepted without a backslash in the same string, refused with one
+                7 => f[3].1 = "\"raw\ncontrol\u{1}\"".to_string(),
+                8 => f[3].1 = "\"raw\ncontrol\\\\\"".to_string(),
+                // escapes inside keys
+                9 => f[0].0 = "amoun\u{74}".to_string(),
+                10 => {
+                    let b = render_obj(&f);
+                    return String::from_utf8(b).unwrap().replacen("\"amount\"", "\"amoun\\u0074\"", 1).into_bytes();
+                }
+                _ => {
+                    let b = render_obj(&f);
+                    return String::from_utf8(b).unwrap().replacen("\"denom\"", "\"\\u0064enom\"", 1).into_bytes();
+                }
+            }
+            render_obj(&f)
+        }
+        // empty data
+        26 => vec![],
+        // bytes that are not UTF-8: inside a string, inside a key, inside a skipped scalar, as whitespace
+        27 | 28 => {
+            let bad: &[u8] = *rng.pick(&[&[0xffu8][..], &[0xc0, 0x80][..], &[0xed, 0xa0, 0x80][..], &[0xf4, 0x90, 0x80, 0x80][..], &[0xe2, 0x82][..], &[0x80][..]]);
+            let b = render_obj(&f);
+            let text = String::from_utf8(b).unwrap();
+            match rng.below(5) {
+                0 => {
+                    // inside the sender's string
+                    let at = text.find("\"sender\":\"").unwrap() + 10;
+                    let mut o = text.as_bytes()[..at].to_vec();
+                    o.extend_from_slice(bad);
+                    o.extend_from_slice(&text.as_bytes()[at..]);
+                    o
+                }
+                1 => {
+                    // an unknown field whose scalar value is not UTF-8
+                    let mut o = text.as_bytes()[..text.len() - 1].to_vec();
+                    o.extend_from_slice(b",\"x\":");
+                    o.extend_from_slice(bad);
+                    o.push(b'}');
+                    o
+                }
+                2 => {
+                    // an unknown field whose string value is not UTF-8
+                    let mut o = text.as_bytes()[..text.len() - 1].to_vec();
+                    o.extend_from_slice(b",\"x\":\"");
+                    o.extend_from_slice(bad);
+                    o.extend_from_slice(b"\"}");
+                    o
+                }
+                3 => {
+                    // an unknown key that is not UTF-8
+                    let mut o = text.as_bytes()[..text.len() - 1].to_vec();
+                    o.extend_from_slice(b",\"");
+                    o.extend_from_slice(bad);
+                    o.extend_from_slice(b"\":1}");
+                    o
+                }
+                _ => {
+                    let mut o = bad.to_vec();
+                    o.extend_from_slice(text.as_bytes());
+                    o
+                }
+            }
+        }
+        // not an object at the top
+        29 => rng.pick(&["[]", "\"str\"", "null", "123", "{", "}", "{}", " ", "{\"amount\"}", "[{}]"]).as_bytes().to_vec(),
+        // nesting up to and beyond the recursion limit inside an unknown field
+        30 => {
+            let depth = *rng.pick(&[1usize, 2, 125, 126, 127, 128, 200]);
+            let (o, c) = if rng.chance(1, 2) { ("[", "]") } else { ("{\"a\":", "}") };
+            f.insert(pos, ("deep".to_string(), format!("{}1{}", o.repeat(depth), c.repeat(depth))));
+            render_obj(&f)
+        }
+        // punctuation
+        31 | 32 => {
+            let text = String::from_utf8(render_obj(&f)).unwrap();
+            match rng.below(8) {
+                0 => text.replacen('{', "{,", 1),
+                1 => text.replacen(',', ",,", 1),
+                2 => text.replacen('}', ",}", 1),
+                3 => text.replacen(':', " ", 1),
+                4 => text.replacen(':', "=", 1),
+                5 => text.replace('"', "'"),
+                6 => text.replacen(',', " ", 1),
+                _ => text.replacen(':', "::", 1),
+            }
+            .into_bytes()
+        }
+        // a known key whose value is followed by junk up to the next delimiter
+        _ => {
+            let i = rng.below(n as u64) as usize;
+            f[i].1 = format!("{} junk", f[i].1);
+            render_obj(&f)
+        }
+    }
+}
+
+/// Acknowledgement bytes for `ibc ack … ackdata=`: `(class as the op line's comment, bytes)`
+fn gen_ack_bytes(rng: &mut Rng) -> (&'static str, Vec<u8>) {
+    let s: (&'static str, String) = match rng.below(28) {
+        0 | 1 => ("1", "{\"result\":\"AQ==\"}".to_string()),
+        2 => ("1", "{\"result\":\"MQ==\"}".to_string()),
+        3 => ("1", " { \"result\" : \"AQ\" } ".to_string()),
+        4 => ("1", "{\"result\":\"\"}".to_string()),
+        5 => ("1", "{\"result\":\"AQ=\"}".to_string()),
+        6 => ("raw", "{\"result\":\"AR==\"}".to_string()),
+        7 => ("raw", "{\"result\":\"A\"}".to_string()),
+        8 => ("raw", "{\"result\":\"A=Q=\"}".to_string()),
+        9 => ("raw", "{\"result\":\"AQ===\"}".to_string()),
+        10 => ("raw", "{\"result\":\"!!!!\"}".to_string()),
+        11 => ("1", "{\"result\":\"QUJD\"}".to_string()),
+        12 => ("1", "{\"result\":\"QUJDRA\"}".to_string()),
+        13 => ("raw", "{\"result\":\"QUJDR\"}".to_string()),
+        14 => ("raw", "{\"result\":\"QUJDRB==\"}".to_string()),
+        15 | 16 => ("0", format!("{{\"error\":{}}}", json_str(*rng.pick(&WIRE_TEXTS)))),
+        17 => ("0", "{\"error\":\"\"}".to_string()),
+        18 => ("raw", "{\"error\":\"x\",\"result\":\"AQ==\"}".to_string()),
+        19 => ("raw", "{\"error\":\"x\"} x".to_string()),
+        20 => ("raw", "{\"other\":\"x\"}".to_string()),
+        21 => ("raw", "\"result\"".to_string()),
+        22 => ("raw", "{\"error\":5}".to_string()),
+        23 => ("raw", "{\"Error\":\"x\"}".to_string()),
+        24 => ("raw", String::new()),
+        25 => ("raw", "{\"error\":\"x\",}".to_string()),
+        26 => ("0", "\n{\"\\u0065rror\"\t:\r\"\\u0078\"}\n".to_string()),
+        _ => ("raw", "{\"result\":null}".to_string()),
+    };
+    (s.0, s.1.into_bytes())
+}
+
 pub struct Ics20Scen {
     app: IcsApp,
     pool: Vec<Addr>,
@@ -723,8 +1058,8 @@ impl Ics20Scen {
                                 slash_enc(&p.denom),
                                 p.amount,
                                 p.sender,
-                                p.receiver,
-                                p.memo.unwrap_or("-".to_string()),
+                                text_enc(&p.receiver),
+                                opt_text_enc(&p.memo),
                                 opt_str(to)
                             ),
                             Err(_) => "packet?".to_string(),
@@ -732,11 +1067,19 @@ impl Ics20Scen {
                         .collect()
                 });
                 let sub: Vec<String> = SUBLOG.with(|s| s.borrow().clone());
+                // the wire: the bytes of every emitted packet and of the acknowledgement
+                let pkt: Vec<String> = SENT.with(|s| s.borrow().iter().map(|(_, data, _)| hex(data.as_slice())).collect());
+                let ackraw = match &res.data {
+                    None => "-".to_string(),
+                    Some(d) => hex(d.as_slice()),
+                };
                 format!(
-                    "> ok ack={} sent={} sub={}",
+                    "> ok ack={} sent={} sub={} pkt={} ackraw={}",
                     ack,
                     if sent.is_empty() { "-".to_string() } else { sent.join(";") },
-                    if sub.is_empty() { "-".to_string() } else { sub.join(";") }
+                    if sub.is_empty() { "-".to_string() } else { sub.join(";") },
+                    if pkt.is_empty() { "-".to_string() } else { pkt.join(";") },
+                    ackraw
                 )
             }
             Some(Err(_)) => "> err".to_string(),
@@ -898,8 +1241,18 @@ impl Ics20Scen {
             5..=10 => (1 + rng.below(10_000)).to_string(),
             _ => "-".to_string(),
         };
-        let memo = if rng.chance(1, 4) { format!("m{}", rng.below(5)) } else { "-".to_string() };
-        format!("chan={} to=remote{} timeout={} memo={}", chan, rng.below(3), timeout, memo)
+        let memo = match rng.below(16) {
+            0..=2 => format!("m{}", rng.below(5)),
+            3 | 4 => text_enc(*rng.pick(&WIRE_TEXTS)),
+            _ => "-".to_string(),
+        };
+        // (an empty remote address is refused by the runtime — empty attribute value —, not by the contract)
+        let to = match rng.below(10) {
+            0 => text_enc(*rng.pick(&WIRE_TEXTS)),
+            _ => format!("remote{}", rng.below(3)),
+        };
+        let to = if to == "empty" { "remote0".to_string() } else { to };
+        format!("chan={} to={} timeout={} memo={}", chan, to, timeout, memo)
     }
 
     fn gen_recv(&self, rng: &mut Rng) -> String {
@@ -918,7 +1271,11 @@ impl Ics20Scen {
                 }
             }
         }
-        let (dest, local, out) = if !cands.is_empty() && rng.chance(9, 10) {
+        // the wire: a mutated encoding is mostly sent for a packet that would be paid out if it decodes, so that
+        // the acknowledgement class shows what the decoder made of it
+        let wire_mut = rng.chance(24, 100);
+        let good = wire_mut && !cands.is_empty() && rng.chance(5, 6);
+        let (dest, local, out) = if good || (!cands.is_empty() && rng.chance(9, 10)) {
             rng.pick(&cands).clone()
         } else {
             let state = self.channel(&dest).unwrap_or_default();
@@ -930,13 +1287,13 @@ impl Ics20Scen {
             }
         };
         let cp = counterparty(&dest);
-        let local = match rng.below(30) {
+        let local = match if good { 99 } else { rng.below(30) } {
             0 => "uforeign".to_string(),
             1 => format!("cw20:{}", self.pool[0]),
             2 => "cw20:NotAnAddress".to_string(),
             _ => local,
         };
-        let denom = match rng.below(24) {
+        let denom = match if good { 99 } else { rng.below(24) } {
             0 => local.clone(),                                    // no prefix at all
             1 => format!("{}/{}", cp, local),                      // only one separator (unless the denom has one)
             2 => format!("otherport/{}/{}", cp, local),            // other port
@@ -944,7 +1301,7 @@ impl Ics20Scen {
             4 => format!("{}/{}/{}", REMOTE_PORT, counterparty(*rng.pick(&CHANS[..])), local),
             _ => format!("{}/{}/{}", REMOTE_PORT, cp, local),
         };
-        let amt = match rng.below(16) {
+        let amt = match if good { 7 + rng.below(3) } else { rng.below(16) } {
             0 => out.saturating_add(1),
             1 | 2 | 3 => out,
             4 => 0,
@@ -962,18 +1319,36 @@ impl Ics20Scen {
             Some(a) => self.api().addr_validate(a).is_ok(),
             None => true,
         };
-        let fail = rng.chance(1, 5);
+        let fail = !good && rng.chance(1, 5);
+        let rcv = if good { format!("+{}", rng.pick(&self.pool)) } else { self.gen_addr(rng) };
+        let snd = format!("remote{}", rng.below(3));
+        // the wire: the exact bytes of the packet data — mostly the canonical JSON of the fields, often mutated
+        let data = match if wire_mut { 50 } else { rng.below(100) } {
+            // old-style line: the harness serialises the printed fields itself
+            0..=9 => String::new(),
+            _ => {
+                let memo = match rng.below(6) {
+                    0 => Some(format!("m{}", rng.below(5))),
+                    1 => Some(rng.pick(&WIRE_TEXTS).to_string()),
+                    _ => None,
+                };
+                let snd_text = if rng.chance(1, 8) { rng.pick(&WIRE_TEXTS).to_string() } else { snd.clone() };
+                let canon = to_json_binary(&Ics20Packet {
+                    amount: Uint128::new(amt),
+                    denom: denom.clone(),
+                    receiver: addr_text(&rcv),
+                    sender: snd_text.clone(),
+                    memo: memo.clone(),
+                })
+                .unwrap()
+                .to_vec();
+                let bytes = if wire_mut { mutate_packet_json(rng, amt, &denom, &addr_text(&rcv), &snd_text, memo.as_deref()) } else { canon };
+                format!(" data={}", if bytes.is_empty() { "-".to_string() } else { hex(&bytes) })
+            }
+        };
         format!(
-            "ibc recv chan={} sport={} schan={} denom={} amt={} rcv={} snd=remote{} tv={} fail={}",
-            dest,
-            REMOTE_PORT,
-            cp,
-            denom,
-            amt,
-            self.gen_addr(rng),
-            rng.below(3),
-            tv as u8,
-            fail as u8
+            "ibc recv chan={} sport={} schan={} denom={} amt={} rcv={} snd={} tv={} fail={}{}",
+            dest, REMOTE_PORT, cp, denom, amt, rcv, snd, tv as u8, fail as u8, data
         )
     }
 
@@ -998,15 +1373,20 @@ impl Ics20Scen {
         let p = Ics20Packet {
             amount: Uint128::new(a.u128("amt")),
             denom: a.str("denom"),
-            receiver: a.str("rcv"),
+            receiver: text_dec(&a.str("rcv")),
             sender: addr_text(&a.str("snd")),
-            memo: a.opt("memo"),
+            memo: a.opt("memo").map(|m| text_dec(&m)),
         };
         (a.str("chan"), p)
     }
 
     fn transfer_msg_of(a: &Args) -> TransferMsg {
-        TransferMsg { channel: a.str("chan"), remote_address: a.str("to"), timeout: a.opt_u64("timeout"), memo: a.opt("memo") }
+        TransferMsg {
+            channel: a.str("chan"),
+            remote_address: text_dec(&a.str("to")),
+            timeout: a.opt_u64("timeout"),
+            memo: a.opt("memo").map(|m| text_dec(&m)),
+        }
     }
 
     fn parse_allow(s: &str) -> Vec<AllowMsg> {
@@ -1266,10 +1646,15 @@ impl Scenario for Ics20Scen {
         let f = self.flights.remove(i);
         let fa = self.flight_args(&f);
         let fail = rng.chance(1, 5) as u8;
-        match rng.below(10) {
-            0 | 1 | 2 | 3 => format!("ibc ack {fa} ok=1 fail={fail}"),
-            4 | 5 | 6 => format!("ibc ack {fa} ok=0 fail={fail}"),
-            7 => format!("ibc ack {fa} ok=raw fail={fail}"),
+        match rng.below(14) {
+            0 | 1 | 2 => format!("ibc ack {fa} ok=1 fail={fail}"),
+            3 | 4 | 5 => format!("ibc ack {fa} ok=0 fail={fail}"),
+            6 => format!("ibc ack {fa} ok=raw fail={fail}"),
+            // the wire: exactly these acknowledgement bytes (`ok=` is then only a comment)
+            7..=10 => {
+                let (cls, bytes) = gen_ack_bytes(rng);
+                format!("ibc ack {fa} ok={cls} fail={fail} ackdata={}", if bytes.is_empty() { "-".to_string() } else { hex(&bytes) })
+            }
             _ => format!("ibc timeout {fa} fail={fail}"),
         }
     }
@@ -1284,7 +1669,8 @@ impl Scenario for Ics20Scen {
     ///   receiver, ack / timeout refunds, next block);
     /// * variant 1 — no default gas limit, token0 listed without limit: the allow list and its gate (new token, raise,
     ///   lower, stranger, hand-over of governance, default gas limit by migrate), cw20 sends / payouts / refunds of
-    ///   both tokens (token1 refuses the payout), undecodable packet, wrong port;
+    ///   both tokens (token1 refuses the payout), packets as exact bytes (`data=`: one undecodable, one with an
+    ///   unknown field / another field order), wrong port;
     /// * variant 2 — a pre-0.12 (v1) storage layout with one channel and one native coin in flight under the old
     ///   rules, to be migrated (a second channel makes the migration impossible).
     fn small_scope(&mut self, variant: u64) -> Option<SmallScope> {
@@ -1340,10 +1726,18 @@ impl Scenario for Ics20Scen {
                     send(&t0),
                     // not on the allow list (until the governance lists it / a default gas limit is set)
                     send(&t1),
-                    recv0(&c0, 1, &rcv, 0),
+                    // exact bytes: an unknown field, another field order, whitespace, `+1`
+                    format!(
+                        "ibc recv chan=channel-0 sport={REMOTE_PORT} schan=channel-1 denom={REMOTE_PORT}/channel-1/{c0} amt=1 rcv={rcv} snd=remote0 tv=1 fail=0 data={}",
+                        hex(format!("{{ \"x\":[1,{{}}], \"receiver\":\"{p2}\",\"amount\":\"+1\",\"denom\":\"{REMOTE_PORT}/channel-1/{c0}\",\"sender\":\"remote0\",\"memo\":null }}").as_bytes())
+                    ),
                     // token1 refuses the payout
                     recv0(&c1, 1, &rcv, 1),
-                    format!("ibc recv chan=channel-0 sport={REMOTE_PORT} schan=channel-1 raw=1 rcv={rcv} tv=1 fail=0"),
+                    // undecodable data, as exact bytes: the amount is given twice
+                    format!(
+                        "ibc recv chan=channel-0 sport={REMOTE_PORT} schan=channel-1 denom={REMOTE_PORT}/channel-1/{c0} amt=1 rcv={rcv} snd=remote0 tv=1 fail=0 data={}",
+                        hex(format!("{{\"amount\":\"1\",\"amount\":\"1\",\"denom\":\"{REMOTE_PORT}/channel-1/{c0}\",\"receiver\":\"{p2}\",\"sender\":\"remote0\"}}").as_bytes())
+                    ),
                     // wrong port
                     format!("ibc recv chan=channel-0 sport={REMOTE_PORT} schan=channel-1 denom=otherport/channel-1/{c0} amt=1 rcv={rcv} snd=remote0 tv=1 fail=0"),
                     format!("ibc ack {} ok=0 fail=0", flight("channel-0", &c0, 1)),
@@ -1581,7 +1975,10 @@ impl Scenario for Ics20Scen {
                         }
                     }
                     "recv" => {
-                        let data = if a.get("raw").is_some() {
+                        let data = if let Some(h) = a.get("data") {
+                            // exactly these bytes
+                            Binary::from(if h == "-" { vec![] } else { parse_payload(h) })
+                        } else if a.get("raw").is_some() {
                             Binary::from(b"not json".to_vec())
                         } else {
                             to_json_binary(&Ics20Packet {
@@ -1614,6 +2011,10 @@ impl Scenario for Ics20Scen {
                         );
                         if k == "ack" {
                             let ackdata = match a.str("ok").as_str() {
+                                _ if a.get("ackdata").is_some() => {
+                                    let h = a.str("ackdata");
+                                    Binary::from(if h == "-" { vec![] } else { parse_payload(&h) })
+                                }
                                 "1" => to_json_binary(&Ics20Ack::Result(Binary::from(b"1".to_vec()))).unwrap(),
                                 "0" => to_json_binary(&Ics20Ack::Error("remote failure".to_string())).unwrap(),
                                 _ => Binary::from(b"garbage".to_vec()),
@@ -1630,7 +2031,14 @@ impl Scenario for Ics20Scen {
                 // replayed op files: a packet that was acknowledged / timed out is no longer in flight
                 if k == "ack" || k == "timeout" {
                     let (ch, p) = self.packet_of(&a);
-                    let f = Flight { chan: ch, denom: p.denom, amt: p.amount.u128(), snd: p.sender, rcv: p.receiver, memo: p.memo };
+                    let f = Flight {
+                        chan: ch,
+                        denom: p.denom,
+                        amt: p.amount.u128(),
+                        snd: p.sender,
+                        rcv: text_enc(&p.receiver),
+                        memo: p.memo.map(|m| text_enc(&m)),
+                    };
                     if let Some(i) = self.flights.iter().position(|x| *x == f) {
                         self.flights.remove(i);
                     }
